@@ -23,3 +23,36 @@ Theorem c15_same_line_count : forall W ovf cs ls lsp, 1 <= W ->
   run W false ovf cs = Ok ls -> run W true ovf cs = Ok lsp -> length lsp = length ls.
 Proof. exact OptionRel.c15_same_line_count. Qed.
 Print Assumptions c15_same_line_count.
+
+(* ---------- whole renderer (Proofs/Compose.v): a maximum wrap width >= the width changes nothing (overflow off) ---------- *)
+From H2T Require Import Sub Css Dom Render Api Proofs.WrapInv Proofs.RenderWidth Proofs.Compose.
+Theorem c15_maxwrap_noop_render :
+  forall (d : deco) (mw : N) (o1 o2 : ropts) (m width : N) (tree : rnode),
+       wrap_width o1 = None ->
+       wrap_width o2 = Some m ->
+       same_but_wrap o1 o2 ->
+       o_allow_overflow o1 = false ->
+       width <= m ->
+       res_rel (fun s1 s2 : subr => s2 = reopt s1 o2 /\ sub_into_lines s2 = sub_into_lines s1)
+         (render_tree d mw o1 width tree) (render_tree d mw o2 width tree).
+Proof. exact Compose.c15_maxwrap_noop_render. Qed.
+Print Assumptions c15_maxwrap_noop_render.
+
+Theorem c15_lines_from_read :
+  forall (inl : list (text * text) -> res (list styledecl)) (dr : list node -> res (list ruleset))
+         (c : config) (doc : list node) (w m : N),
+       c_max_wrap c = None ->
+       c_overflow c = false ->
+       w <= m -> lines_from_read inl dr (set_max_wrap c m) doc w = lines_from_read inl dr c doc w.
+Proof. exact Compose.c15_lines_from_read. Qed.
+Print Assumptions c15_lines_from_read.
+
+Theorem c15_string_from_read :
+  forall (inl : list (text * text) -> res (list styledecl)) (dr : list node -> res (list ruleset))
+         (c : config) (doc : list node) (w m : N),
+       c_max_wrap c = None ->
+       c_overflow c = false ->
+       w <= m -> string_from_read inl dr (set_max_wrap c m) doc w = string_from_read inl dr c doc w.
+Proof. exact Compose.c15_string_from_read. Qed.
+Print Assumptions c15_string_from_read.
+
